@@ -225,6 +225,8 @@ pub struct CodegenContext {
     changed: HashSet<UndefinedSymbol>,
     /// The symbols that were looked up in the current pass
     used: Vec<(SymbolIndex, UndefinedSymbol)>,
+    /// Was anything skipped in the current pass because there was no segment to put it in (yet)?
+    skipped_without_segment: bool,
     current_scope: IdentifierPath,
     current_scope_nx: SymbolIndex,
 
@@ -285,6 +287,7 @@ impl CodegenContext {
             undefined: HashSet::new(),
             changed: HashSet::new(),
             used: vec![],
+            skipped_without_segment: false,
             current_scope: IdentifierPath::empty(),
             current_scope_nx: SymbolIndex::new(0),
             macro_sites: HashMap::new(),
@@ -367,6 +370,18 @@ impl CodegenContext {
         // What was looked up in this pass may have been found because an earlier pass defined it, while this pass did not
         // (e.g. a label in the branch of an '.if' that is not taken anymore). Such a symbol will not exist in the next
         // pass, so there has to be one.
+        // What stands in front of the first '.define segment' could not be put anywhere in the pass in which that
+        // definition was seen for the first time.
+        if std::mem::take(&mut self.skipped_without_segment) {
+            if let Some(first_segment) = self.segments.keys().next() {
+                self.changed.insert(UndefinedSymbol {
+                    scope_nx: self.symbols.root,
+                    id: IdentifierPath::from("segments").join(first_segment),
+                    span: None,
+                });
+            }
+        }
+
         for (symbol_nx, usage_location) in std::mem::take(&mut self.used) {
             if matches!(self.symbols.try_get(symbol_nx), Some(symbol) if symbol.pass_idx < self.pass_idx)
             {
@@ -420,6 +435,8 @@ impl CodegenContext {
 
         log::trace!("\n* NEXT PASS ({}) *", self.pass_idx);
         self.segments.values_mut().for_each(|s| s.reset());
+        // Every pass starts in the segment that was defined first, not in the one the previous pass ended in
+        self.current_segment = self.segments.keys().next().cloned();
         self.changed.clear();
         // Every pass builds up the analysis from scratch. It is keyed by symbol index, and the index of a symbol that was
         // removed (e.g. the 'index' of a loop) may be reused by an entirely different symbol in a later pass.
@@ -617,6 +634,7 @@ impl CodegenContext {
                     "Not emitting, since there is no current segment: {:?}",
                     &bytes
                 );*/
+                self.skipped_without_segment = true;
                 Ok(())
             }
         }
@@ -850,7 +868,16 @@ impl CodegenContext {
                                 }
                             }
 
-                            self.segments.insert(name.clone(), Segment::new(opts));
+                            match self.segments.get_mut(&name) {
+                                // The segment is known from the previous pass and this pass has put something in it
+                                // already (the definition comes later in the source): that shouldn't get lost
+                                Some(existing) if existing.is_touched() => {
+                                    *existing.options_mut() = opts;
+                                }
+                                _ => {
+                                    self.segments.insert(name.clone(), Segment::new(opts));
+                                }
+                            }
                             if self.current_segment.is_none() {
                                 self.current_segment = Some(name);
                             }
@@ -1165,6 +1192,8 @@ impl CodegenContext {
                         id.data.clone(),
                         self.symbol(id.span, pc.as_i64(), SymbolType::Label),
                     )?;
+                } else {
+                    self.skipped_without_segment = true;
                 }
 
                 if let Some(b) = block {
